@@ -73,6 +73,8 @@ def episodes(prop, tier, seed):
         out["peelers"] = (g.peelers(seed + 6, sizes=(800001,) if q else (800001, 1000000, 20000001)), "verif")
         out["sharded"] = (g.sharded_logics(seed + 11, "filter", sizes=(100000,) if q else (100000, 120000, 199999)), "verif")
         out["retry"] = (g.retry_recipes(seed + 12, "filter", sizes=(200000,) if q else (200000, 400000), per_size=2 if q else 3), "verif")
+        # a filter over a key source that fails must not come back as Ok over the keys read so far (len, members)
+        out["line-faults"] = ([e for e in g.c17_line_faults(seed + 13, thin=q) if e["ops"][0]["kind"] == "filter"], "verif")
         if not q:
             out["widths-release"] = (g.filter_widths(seed + 4, sizes=(3, 1000, 100000), max_probe_bits=16), "release")
             out["regimes-release"] = (g.regime_filters(seed + 5, REGIME_T), "release")
